@@ -71,11 +71,20 @@ pub fn control_compare(cfg: &RunCfg, ops: &[Op], plain: &Exec) -> Vec<Violation>
     if !plain.failed_ops.iter().any(|f| *f) {
         return v;
     }
+    // a failed call is removed; if it took a message out of flight, the loss itself is kept
     let kept: Vec<Op> = ops
         .iter()
         .zip(plain.failed_ops.iter())
-        .filter(|(_, f)| !**f)
-        .map(|(o, _)| *o)
+        .filter_map(|(o, f)| {
+            if !*f {
+                return Some(*o);
+            }
+            match *o {
+                Op::Read { node, src: Src::Next, .. } => Some(Op::Drop { node, k: 0 }),
+                Op::Read { node, src: Src::Pick { k, consume: true }, .. } => Some(Op::Drop { node, k }),
+                _ => None,
+            }
+        })
         .collect();
     let ctrl = exec_plain(cfg, &kept);
     if ctrl.failed_ops.iter().any(|f| *f) {
@@ -275,7 +284,10 @@ pub fn farm(f: ScenarioFn, verif_seed: u64, salt: u64, n: u64, thorough: bool, w
                 } else {
                     ff += 1;
                 }
-                local_distinct.insert(mix(r.abstract_trace, crate::prng::hash128(r.cfg.stratum.as_bytes()).0));
+                let nontrivial = r.faults > 0 || r.stats.probes.get("session-both-finished").copied().unwrap_or(0) > 0 || !r.viol.is_empty();
+                if nontrivial {
+                    local_distinct.insert(mix(r.abstract_trace, crate::prng::hash128(r.cfg.stratum.as_bytes()).0));
+                }
                 if idx < 3 {
                     local_samples.push(r.clone());
                 }
